@@ -179,7 +179,15 @@ class Cluster:
                 continue
             item = f"<job_list state='x'><JB_job_number>{jid}</JB_job_number><JB_name>n</JB_name><state>{j['state']}</state></job_list>"
             (run if "r" in j["state"] or "t" in j["state"] else pend).append(item)
-        return f"<?xml version='1.0'?><job_info><queue_info>{''.join(run)}</queue_info><job_info>{''.join(pend)}</job_info></job_info>"
+        if "-f" in args:
+            # the full listing groups running jobs under the queue instance they run on: <queue_info><Queue-List><name>..</name> ... <job_list>..</job_list></Queue-List>;
+            # queue instances without jobs are listed too
+            run_xml = ("<Queue-List><name>all.q@node1</name><qtype>BIP</qtype><slots_used>0</slots_used><slots_total>8</slots_total></Queue-List>"
+                       + "".join(f"<Queue-List><name>all.q@node{2 + k}</name><qtype>BIP</qtype><slots_used>1</slots_used><slots_total>8</slots_total>{item}</Queue-List>"
+                                 for k, item in enumerate(run)))
+        else:
+            run_xml = "".join(run)
+        return f"<?xml version='1.0'?><job_info><queue_info>{run_xml}</queue_info><job_info>{''.join(pend)}</job_info></job_info>"
 
     def cmd_qdel(self, args, _):
         self.cancelled += [a for a in args if not a.startswith("-")]
